@@ -46,3 +46,12 @@ Print Assumptions C03_initialize_is_spec.
 Theorem C03_all_shipped_accepted_shape : forallb gostruct_ok all_gostructs = true.
 Proof. exact all_shipped_accepted_shape. Qed.
 Print Assumptions C03_all_shipped_accepted_shape.
+
+(* ---- tie by translation (gen/SrcMessage.v regenerated from pkg/message/readwriter.go on every
+   run) ---- the tables fieldTypeFromGo, fieldTypeString and fieldTypeSizes of the source, read as
+   constants, are the functions ftype_from_go, ftype_string and ftype_size of the model (eleven
+   types, distinct codes) *)
+From GM Require Import SrcMessage SrcMsgTables.
+Theorem C03_source_type_tables : tables_ok = true.
+Proof. exact src_type_tables. Qed.
+Print Assumptions C03_source_type_tables.
